@@ -798,8 +798,8 @@ class ET(Inverter):
             await self.write_setting('battery_discharge_depth', 100 - dod)
 
     def _get_sensor(self, sensor_id: str) -> Sensor | None:
-        if self._sensors_map is None or sensor_id not in self._sensors_map:
-            self._sensors_map = {s.id_: s for s in self.sensors()}
+        # sensors() changes with the detected capabilities, the map must follow it
+        self._sensors_map = {s.id_: s for s in self.sensors()}
         return self._sensors_map.get(sensor_id)
 
     def sensors(self) -> tuple[Sensor, ...]:
